@@ -15,6 +15,10 @@ ENGINES = [
      "kind_free_text": "liveness / step bound of Sched.tla by TLC; observed pipeline outcomes classified by TLC"},
     {"name": "E7 session", "path": "spec/Session.tla + harness/sessionrun.py + harness/props_c12.py", "serves_properties": ["C12"],
      "kind_free_text": "spec -> code: TLC-enumerated call histories replayed in one interpreter"},
+    {"name": "E8 report", "path": "spec/Report.tla + harness/reportrun.py + harness/props_c18.py", "serves_properties": ["C18"],
+     "kind_free_text": "observations of report generation validated by TLC against the report function"},
+    {"name": "E9 cli", "path": "spec/Cli.tla + spec/MC_Cli.tla + spec/FsTrace.tla + harness/props_cli.py", "serves_properties": ["C19", "C20"],
+     "kind_free_text": "spec -> code replay of every CLI situation; interleavings model-checked; strace logs validated"},
     {"name": "E5 relate", "path": "spec/Relate.tla + harness/props_rel.py",
      "serves_properties": ["C09", "C14", "C15", "C16"],
      "kind_free_text": "relational obligations between traced runs decided by TLC"},
@@ -102,9 +106,23 @@ CLAIMS.update({
             "note": "trusted: TLC, subprocess isolation for the fresh-process reference; the texts are two fixed shapes (inheritance-heavy DAG; limits + scenarios) per seed"},
 })
 
+CLAIMS.update({
+    "C18": {"engine": "E8 report", "design_ref": "DESIGN.md 5/C18",
+            "technique": "Report.tla: rows as a function of (schedule, definition), generation with UNCHANGED schedule; observations of the real report code (in-memory JSON/CSV, generated files, schedule after 1..3 generations) decoded into the abstract domain and checked by TLC",
+            "text": "row set and order (leaf filter), Null for unscheduled, JSON = CSV = files, cost = rate x booked time within a cent, schedule unchanged by generation; 6 time formats, random column selections",
+            "note": "trusted: TLC, CPython strftime/strptime (string rendering is compared by the harness: rendered_ok), csv/json modules"},
+    "C19": {"engine": "E9 cli", "design_ref": "DESIGN.md 5/C19",
+            "technique": "Cli.tla state machine model-checked (ExitContract, NoTrace, <>AllDone); every terminal state replayed against the real plan entry point as a subprocess",
+            "text": "all 160 situations input class x channel x format x own reports; exit status, what stdout is (auto report with SHA-256 report_id / nothing), stderr, leftovers; same rows across channels and own-report variants, same bytes across channels",
+            "note": "trusted: TLC, subprocess / OS; entry point invoked as python -m scriptplan.cli.plan from the scratch copy"},
+    "C20": {"engine": "E9 cli", "design_ref": "DESIGN.md 5/C20",
+            "technique": "Cli.tla with 3 processes: all interleavings at file-operation granularity (NoTrace, Isolation; shared-name variant must fail); real concurrent rounds compared with solitary runs; strace file-operation logs checked by FsTrace.tla",
+            "text": "N = 8..128 real processes in one cwd and TMPDIR on same / different / failing inputs: byte-identical stdout, equal exit, nothing left; path ownership and creation order from strace logs",
+            "note": "trusted: TLC, strace, the OS scheduler for interleavings of real processes (not controlled); the exhaustive interleaving argument is on the model"},
+})
+
 _PENDING = "check under construction in this build round (see DESIGN.md 9.1); not claimed until it runs clean"
-NOT_APPLICABLE = [{"property_id": p, "reason": _PENDING} for p in
-                  ("C18", "C19", "C20")]
+NOT_APPLICABLE = []
 
 NOTES = ("Single entry point ./check <id> --tier quick|thorough [--replay path]. exit 0 held / 1 VIOLATION line / 2 machinery failure. "
          "Known findings: known_findings.json (open entries print KNOWN-FINDING and are excluded from the main exploration by class).")
